@@ -1990,6 +1990,16 @@ class TLSConnection(TLSRecordLayer):
                 else: break
             publicKey, serverCertChain, tackExt = result
 
+            # the key in the certificate must be of the kind the cipher suite
+            # names (RFC 5246, section 7.4.2)
+            if not CipherSuite.filter_for_certificate([cipherSuite],
+                                                      serverCertChain):
+                for result in self._sendError(
+                        AlertDescription.illegal_parameter,
+                        "Server certificate type does not match the "
+                        "negotiated cipher suite"):
+                    yield result
+
             #Check the server's signature, if the server chose an authenticated
             # PFS-enabled ciphersuite
 
